@@ -111,6 +111,7 @@ func run(c *props.Ctx) {
 	perm1(c)
 	attr1(c, fns)
 	short1(c)
+	pc1(c)
 	round1(c)
 	elemLaws(c)
 	neighbourOps(c, cfg)
